@@ -29,7 +29,7 @@ def handle (f : String) (j : Json) : Option Json :=
       | none => jerr "ValueError")
   | "canonicalize_whole" =>
     some (match canonicalizeSplit (punyOf j) (optsOf j) (chars (fieldStr j "url")) with
-      | some s => jlist [splitJson s, jstr (unchars (urlunsplit s))]
+      | some s => jlist [splitJson s, jstr (unchars (printSplit s))]
       | none => jerr "ValueError")
   | "unsplit_both" =>
     let sc := chars (fieldStr j "scheme"); let nl := chars (fieldStr j "netloc")
